@@ -6,6 +6,7 @@ from __future__ import annotations
 
 from spacepackets import BytesTooShortError
 from spacepackets.version import get_version
+import copy
 import struct
 from typing import Tuple, Optional
 
@@ -244,7 +245,9 @@ class PusTc(AbstractSpacePacket):
         self.calc_crc()
         user_data = bytearray(self._app_data)
         user_data.extend(self._crc16)  # type: ignore
-        return SpacePacket(self.sp_header, self.pus_tc_sec_header.pack(), user_data)
+        return SpacePacket(
+            copy.deepcopy(self.sp_header), self.pus_tc_sec_header.pack(), user_data
+        )
 
     def calc_crc(self):
         """Can be called to calculate the CRC16. Also sets the internal CRC16 field."""
